@@ -216,6 +216,9 @@ def run(ctx):
         if want is not None and got != want:
             kind = "accepted" if got == "ok" else ("refused" if got == "iface" else "internal-error:" + got)
             ctx.violation("C11:value:%s:%s" % (name.replace(" ", "-"), kind), "%s: %r = %r -> %s, documented: %s" % (case["format"], name, value, got, want), case)
+        elif name in ("header", "sheet") and want == "ok" and ("%s=%d" % (name, int(value))) not in impl[3].split(" "):
+            # the number that takes effect is the number that was written
+            ctx.violation("C11:value:%s:other-number" % name, "%s: %r = %r gives %s" % (case["format"], name, value, impl[3]), case)
         elif not agree:
             ctx.note_drift(case)
 
@@ -231,7 +234,7 @@ def run(ctx):
         cases.append(("delimited", [("quoting", v)]))
     for v in ["true", "True", "FALSE", "false", "yes", "1", ""]:
         cases.append(("delimited", [("skip initial space", v)]))
-    for v in ["0", "1", "17", "-1", "+3", " 2 ", "x", "1.5", "", "0x10", "1e3"]:
+    for v in ["0", "1", "17", "-1", "+3", " 2 ", "x", "1.5", "", "0x10", "1e3", "10", "20", "100", "1000", "007", "2.0", "1.", "-0.5", ".7"]:
         for fmt in FORMATS:
             cases.append((fmt, [("header", v)]))
         cases.append(("excel", [("sheet", v)]))
